@@ -96,8 +96,14 @@ func init() {
 	stateRule := "BFS states = canonical LSM shapes (per level: tables with their (key, version, meta) lists and age class; memtable; watermark position); transitions = operations applied to the real DB; every state is non-trivial and distinct by construction"
 	planTable["C13"] = lsmPlan("Same state space as C12 with discard-earlier-versions entries added and NumVersionsToKeep 1, 2 and unlimited; after every transition the AllVersions dump must contain every version the retention rule promises (computed by a reference model from the write history and the current watermark) and nothing that was never written.",
 		stateRule,
-		[]Stage{bfs("lsm", 4, 40, prm("oracle", "c13", "nvk", 1, "keys", 1)), bfs("lsm", 4, 40, prm("oracle", "c13", "nvk", 2, "keys", 1))},
-		[]Stage{bfs("lsm", 6, 300, prm("oracle", "c13", "nvk", 1, "keys", 1)), bfs("lsm", 6, 300, prm("oracle", "c13", "nvk", 2, "keys", 1)), bfs("lsm", 5, 300, prm("oracle", "c13", "nvk", 1000, "keys", 2))})
+		[]Stage{bfs("lsm", 4, 40, prm("oracle", "c13", "nvk", 1, "keys", 1)), bfs("lsm", 4, 40, prm("oracle", "c13", "nvk", 2, "keys", 1)),
+			// seeds with versions on both sides of the watermark (the version budget must count only versions at or below it)
+			bfs("lsm", 3, 40, prm("oracle", "c13", "nvk", 2, "keys", 1), seq("Sa Sa T"), seq("Sa Sa Sa T Sa"), seq("Sa F Sa F T"), seq("Sa Ea Sa T Sa")),
+			// the watermark a compaction uses must be the real one even while a value-log GC rewrite is in flight
+			sched("c15gc", 2, 16, 30, prm("variant", "snapshot"))},
+		[]Stage{bfs("lsm", 6, 300, prm("oracle", "c13", "nvk", 1, "keys", 1)), bfs("lsm", 6, 300, prm("oracle", "c13", "nvk", 2, "keys", 1)), bfs("lsm", 5, 300, prm("oracle", "c13", "nvk", 1000, "keys", 2)),
+			bfs("lsm", 5, 600, prm("oracle", "c13", "nvk", 2, "keys", 1), seq("Sa Sa T"), seq("Sa Sa Sa T Sa"), seq("Sa F Sa F T"), seq("Sa Ea Sa T Sa")),
+			bfs("lsm", 4, 300, prm("oracle", "c13", "nvk", 3, "keys", 2), seq("Sa Sa Sb Sa T Sa"), seq("Sa Sb F Sa Sb F T"))})
 	planTable["C14"] = lsmPlan("Same state space as C12 including close/re-open transitions; after every transition: levels >= 1 sorted with disjoint ranges, no user key split across two tables of a level, table ids unique, production validate() passes, in-memory levels == MANIFEST == .sst files on disk; Open after any history succeeds.",
 		stateRule,
 		[]Stage{bfs("lsm", 4, 60, prm("oracle", "c14", "keys", 3, "reopen", true))},
@@ -180,11 +186,11 @@ func init() {
 		[]Stage{en("c21merge", 16, 900, prm("inputs", 4))})
 
 	planTable["C16"] = enumPlan("exploration",
-		"Codec: every combination of key length {1,2,9,127,128,300}, value length {0,1,127,128,16383,16384}, all 64 subsets of the meta bits, user meta {0,ff}, 7 boundary expiry values and 3 record offsets, plain / AES-128 / AES-256: encodeEntry -> decodeEntry and safeRead.Entry return exactly the entry. Replay: every arrangement of up to 3 (quick) / 4 (thorough) groups out of {plain entry, txn of 1, txn of 3, txn without end marker, txn with a foreign-timestamp entry, GC-moved entry inside a txn, end marker with a wrong timestamp}: logFile.iterate delivers whole groups in order with exact value pointers, stops at the first broken group, validEndOffset at the last good boundary. Corruption: every byte of a 5-record log flipped / incremented: no altered record is ever delivered and nothing after it.",
+		"Codec: every combination of key length {1,2,9,127,128,300}, value length {0,1,127,128,16383,16384}, all 64 subsets of the meta bits, user meta {0,ff}, 7 boundary expiry values and 3 record offsets, plain / AES-128 / AES-256: encodeEntry -> decodeEntry and safeRead.Entry return exactly the entry. Replay: every arrangement of up to 3 (quick) / 4 (thorough) groups out of {plain entry, txn of 1, txn of 3, txn without end marker, txn with a foreign-timestamp entry, GC-moved entry inside a txn, end marker with a wrong timestamp}: logFile.iterate delivers whole groups in order with exact value pointers, stops at the first broken group, validEndOffset at the last good boundary. Corruption: every byte of a 5-record log flipped / incremented: no altered record is ever delivered and nothing after it. Value pointers under batching: three concurrent committers whose value-log values are written by the writer goroutine as a batch of two requests with ValueLogMaxEntries 1 (the value log rotates to a new file between the requests of one batch), plain and encrypted, under every interleaving up to the preemption bound: every value reads back through its pointer, before and after a re-open.",
 		"Records are written through the production writeEntry into a real mmap log file and read back by the production iterate.",
 		"nested enumeration; distinct = distinct field tuples / group arrangements / (byte position, mutation)",
-		[]Stage{en("c16codec", 16, 60, nil), en("c16replay", 16, 40, prm("groups", 3)), en("c16corrupt", 8, 30, nil)},
-		[]Stage{en("c16codec", 16, 300, nil), en("c16replay", 16, 300, prm("groups", 4)), en("c16corrupt", 8, 60, nil)})
+		[]Stage{en("c16codec", 16, 60, nil), en("c16replay", 16, 40, prm("groups", 3)), en("c16corrupt", 8, 30, nil), sched("c16rot", 2, 4, 40, prm("cases", 4))},
+		[]Stage{en("c16codec", 16, 300, nil), en("c16replay", 16, 300, prm("groups", 4)), en("c16corrupt", 8, 60, nil), sched("c16rot", 3, 4, 600, prm("cases", 4))})
 
 	planTable["C17"] = enumPlan("exploration",
 		"All sequences of up to 3 (quick) / 4 (thorough) change sets (creates on levels 0-2 with/without key id and compression, deletes of known and unknown tables, compaction-shaped create+delete sets) with deletionsRewriteThreshold 0, 2 and 10000 (automatic rewrites at every possible position): after every addChanges the replayed file, the in-memory manifest and a re-open equal the reference table map. For every sequence up to length 2 (3) the file is cut at EVERY byte (replay must give the state after the last complete change set and its offset) and every byte is flipped (replay must fail or give a prefix state).",
@@ -253,13 +259,13 @@ func init() {
 		[]Stage{sched("c01flush", 2, 16, 30, prm("variant", "flush")), sched("c01flush", 2, 16, 30, prm("variant", "compact")), bfs("lsm", 5, 60, prm("oracle", "c12", "mode", "normal", "keys", 2, "ops", "Sa Sb Da F C0 C1 O X")), bfs("lsm", 4, 40, prm("oracle", "c12", "mode", "normal", "keys", 2, "big", true, "gc", true, "vlog_max_entries", 1, "ops", "Ba Bb Sa Da F C0 G O X"), seq("Ba Bb F"), seq("Ba Ba F C0"))},
 		[]Stage{sched("c01flush", 3, 16, 300, prm("variant", "flush")), sched("c01flush", 3, 16, 300, prm("variant", "compact")), sched("c01flush", 2, 16, 300, prm("variant", "compact", "inmemory", false)), bfs("lsm", 7, 900, prm("oracle", "c12", "mode", "normal", "keys", 2, "ops", "Sa Sb Da Db F C0 C1 O X A")), bfs("lsm", 6, 600, prm("oracle", "c12", "mode", "normal", "keys", 2, "big", true, "gc", true, "vlog_max_entries", 1, "ops", "Ba Bb Sa Da F C0 G O X"), seq("Ba Bb F"), seq("Ba Ba F C0")), bfs("lsm", 5, 600, prm("oracle", "c12", "mode", "normal", "keys", 2, "inmemory", true, "ops", "Sa Sb Da F C0 C1 O X"))})
 
-	planTable["C15"] = lsmPlan("Normal- and managed-mode histories with value-log values (one entry per value-log file, so files rotate constantly), deletes, flushes, compactions and RunValueLogGC of the oldest sealed file as explicit transitions (discard statistics forced: any sealed file may be picked), with snapshot transactions, a Get item and an iterator item held in open transactions across the GC: after every transition every read (fresh, snapshot, held items) must be unchanged and no deleted key may reappear. Concurrent part: GC rewrite phases (scan, write-back, file deletion) interleaved with a deleter/compactor and an iterator opened mid-GC under the controlled scheduler.",
+	planTable["C15"] = lsmPlan("Normal- and managed-mode histories with value-log values (one entry per value-log file, so files rotate constantly), deletes, flushes, compactions and RunValueLogGC of the oldest sealed file as explicit transitions (discard statistics forced: any sealed file may be picked), with snapshot transactions, a Get item and an iterator item held in open transactions across the GC: after every transition every read (fresh, snapshot, held items) must be unchanged and no deleted key may reappear. Concurrent part: GC rewrite phases (scan, write-back, file deletion) interleaved with a deleter/compactor, an iterator opened mid-GC, and a snapshot reader whose key is overwritten, flushed and compacted to the last level during the rewrite, under the controlled scheduler.",
 		stateRule,
 		[]Stage{bfs("lsm", 4, 60, prm("oracle", "c12", "mode", "normal", "keys", 2, "big", true, "gc", true, "vlog_max_entries", 1, "l0_tables", 1, "ops", "Ba Bb Da F C0 G Ka Ia Z O X"), seq("Ba Bb F"), seq("Ba Bb Ba F C0")),
-			sched("c15gc", 2, 16, 25, prm("variant", "iter")), sched("c15gc", 2, 16, 30, prm("variant", "delete"))},
+			sched("c15gc", 2, 16, 25, prm("variant", "iter")), sched("c15gc", 2, 16, 30, prm("variant", "delete")), sched("c15gc", 2, 16, 30, prm("variant", "snapshot"))},
 		[]Stage{bfs("lsm", 6, 900, prm("oracle", "c12", "mode", "normal", "keys", 2, "big", true, "gc", true, "vlog_max_entries", 1, "l0_tables", 1, "ops", "Ba Bb Sa Da F C0 C1 G Ka Ia Z O X"), seq("Ba Bb F"), seq("Ba Bb Ba F C0")),
 			bfs("lsm", 5, 600, prm("oracle", "c12", "mode", "managed", "keys", 2, "big", true, "gc", true, "vlog_max_entries", 2, "l0_tables", 1, "ops", "Ba Bb Da F C0 T G Ka Ia Z"), seq("Ba Bb Ba F")),
-			sched("c15gc", 3, 16, 300, prm("variant", "iter")), sched("c15gc", 3, 16, 600, prm("variant", "delete"))})
+			sched("c15gc", 3, 16, 300, prm("variant", "iter")), sched("c15gc", 3, 16, 600, prm("variant", "delete")), sched("c15gc", 3, 16, 600, prm("variant", "snapshot"))})
 
 	planTable["C07"] = lsmPlan("Every state of the managed- and normal-mode operation-sequence space (writes, deletes, value-log values, flushes, compactions, discard-timestamp moves) is closed and re-opened read-write and, separately, read-only: the dump of ALL retained versions (including internal keys) must be identical before Close and after Open, reads at every timestamp >= the discard timestamp equal the model afterwards, and a read-only open + full read + close leaves every file byte-identical (name, size, content hash). Variants with CompactL0OnClose and different compaction settings compare visible reads.",
 		stateRule,
